@@ -151,6 +151,18 @@ def check_paths(prog: Program, ci: ClassInfo, paths, label: str, state_keys: set
             names, has_kw = accepted_params(prog, target)
             tname = target.name if isinstance(target, ClassInfo) else target.qualname
             given = [k.arg for k in ev.expr.keywords]
+            # what the target REQUIRES must be in the dictionary (or given explicitly): a key that the writer no longer
+            # produces is a TypeError at the first load
+            tfn = prog.find_method(target, "__init__") if isinstance(target, ClassInfo) else target
+            if tfn is not None and not (isinstance(target, ClassInfo) and target.is_dataclass):
+                sig_ = _signature(tfn, bound=tfn.cls is not None and not tfn.is_staticmethod)
+                npos_ = len([a_ for a_ in ev.expr.args if not isinstance(a_, ast.Starred)])
+                have_ = set(sig_["pos"][:npos_]) | set(given)
+                miss_ = sorted(q for q in [*sig_["required_pos"], *sig_["required_kw"]] if q not in have_)
+                k_ = ("required", id(ev.node), tuple(miss_))
+                if miss_ and not any(isinstance(a_, ast.Starred) for a_ in ev.expr.args) and k_ not in seen:
+                    seen.add(k_)
+                    probs.append(Problem(ev.node, ev.fi, f"{label}: {tname}() requires {miss_}, which are neither in the dictionary on this path (keys passed: {sorted(g for g in given if g)}) nor given explicitly: TypeError when the stored form is loaded [when {p.cond_text()[:100]}]", f"required-{'-'.join(miss_)}"))
             bad = sorted(k for k in given if k not in names and not has_kw)
             dup = sorted({k for k in given if given.count(k) > 1})
             for kind, ks in (("unaccepted", bad), ("duplicate", dup)):
